@@ -1,7 +1,847 @@
-//! C11 — not implemented yet.
-use vmon::report::Args;
+//! C11 — write / append / overwrite / read returns exactly the rows written.
+//!
+//! Generator: random Arrow schemas (recursive type generator in `gen.rs` + the vmon `ColTy` pool),
+//! random batch splits (including empty batches), random file / group / byte limits, every
+//! storage version, histories of create / append / overwrite.
+//! Oracle: model = concatenation of accepted batches since the last overwrite, keyed by the unique
+//! `id`; after every accepted step: `count_rows`, full scan as a multiset, ordered scan as a
+//! sequence, schema data types.
 
-pub fn run(_args: &Args) -> i32 {
-    eprintln!("HARNESS-ERROR C11 not implemented");
-    2
+use arrow_array::{RecordBatch, RecordBatchIterator};
+use arrow_schema::{DataType, Schema, SchemaRef};
+use futures::TryStreamExt;
+use lance::dataset::{WriteMode, WriteParams};
+use lance::Dataset;
+use lance_encoding::version::LanceFileVersion;
+use serde_json::{json, Value};
+use std::collections::BTreeMap;
+use std::sync::Arc;
+use vmon::prng::{fnv_str, Rng};
+use vmon::report::{Args, Report};
+use vmon::store::World;
+use vmon::table::{batch_to_rows, render_row, Actor, Cell, IdAlloc, Row};
+
+use crate::gen::{kind_tag, type_tag, XSpec};
+use crate::util::{guard, install_quiet_panic_hook, run_parallel, selftest_requested, Fail, Histo};
+
+#[derive(Clone, Debug)]
+pub struct Finding {
+    pub sig: String,
+    pub what: String,
+    pub detail: Value,
+}
+
+#[derive(Clone, Copy, Debug, PartialEq, Eq)]
+pub enum Ver {
+    Legacy,
+    V2_0,
+    V2_1,
+    V2_2,
+}
+
+impl Ver {
+    fn lance(&self) -> LanceFileVersion {
+        match self {
+            Ver::Legacy => LanceFileVersion::Legacy,
+            Ver::V2_0 => LanceFileVersion::V2_0,
+            Ver::V2_1 => LanceFileVersion::V2_1,
+            Ver::V2_2 => LanceFileVersion::V2_2,
+        }
+    }
+    fn name(&self) -> &'static str {
+        match self {
+            Ver::Legacy => "legacy",
+            Ver::V2_0 => "2.0",
+            Ver::V2_1 => "2.1",
+            Ver::V2_2 => "2.2",
+        }
+    }
+    /// docs/src/format/file/versioning.md: nulls in struct fields are supported from 2.1 on
+    fn struct_validity_supported(&self) -> bool {
+        matches!(self, Ver::V2_1 | Ver::V2_2)
+    }
+}
+
+/// Observation of one dataset version.
+pub struct Obs {
+    pub count: usize,
+    pub names: Vec<String>,
+    pub unordered: Vec<Row>,
+    pub ordered: Vec<Row>,
+    pub dataset_schema: Schema,
+    pub scan_schema: Option<SchemaRef>,
+}
+
+/// expected == observed up to the documented normalisations; records which were used.
+fn cell_equiv(exp: &Cell, obs: &Cell, ver: Ver, norms: &mut Vec<&'static str>) -> bool {
+    if exp == obs {
+        return true;
+    }
+    match (exp, obs) {
+        (Cell::Null, Cell::Struct(_)) if !ver.struct_validity_supported() => {
+            norms.push("struct-validity-dropped(<2.1)");
+            true
+        }
+        (Cell::List(a), Cell::List(b)) => {
+            a.len() == b.len() && a.iter().zip(b).all(|(x, y)| cell_equiv(x, y, ver, norms))
+        }
+        (Cell::Struct(a), Cell::Struct(b)) => {
+            a.len() == b.len()
+                && a.iter()
+                    .zip(b)
+                    .all(|((ka, x), (kb, y))| ka == kb && cell_equiv(x, y, ver, norms))
+        }
+        _ => false,
+    }
+}
+
+fn row_equiv(exp: &Row, obs: &Row, ver: Ver, norms: &mut Vec<&'static str>) -> Option<usize> {
+    if exp.len() != obs.len() {
+        return Some(usize::MAX);
+    }
+    for (i, (e, o)) in exp.iter().zip(obs).enumerate() {
+        if !cell_equiv(e, o, ver, norms) {
+            return Some(i);
+        }
+    }
+    None
+}
+
+/// type equality up to documented normalisation. Returns Some(tag) when a normalisation applied.
+fn type_equiv(exp: &DataType, obs: &DataType) -> Result<Option<String>, ()> {
+    if exp == obs {
+        return Ok(None);
+    }
+    Err(())
+}
+
+/// The deciding oracle: pure function of (model, observation).
+pub fn oracle(
+    model: &[(i64, Row)],
+    exp_schema: &Schema,
+    obs: &Obs,
+    ver: Ver,
+    norms: &mut Vec<&'static str>,
+    type_norms: &mut Vec<String>,
+) -> Vec<Finding> {
+    let mut out = vec![];
+    let ncols = exp_schema.fields().len();
+    // ---- count_rows
+    if obs.count != model.len() {
+        out.push(Finding {
+            sig: "count-rows-differs-from-model".into(),
+            what: format!("count_rows(None)={} but {} rows were written", obs.count, model.len()),
+            detail: json!({"count_rows": obs.count, "model": model.len()}),
+        });
+    }
+    // ---- schema: names, order, nullability, data types
+    let check_schema = |s: &Schema, which: &str, out: &mut Vec<Finding>, type_norms: &mut Vec<String>| {
+        if s.fields().len() != ncols {
+            out.push(Finding {
+                sig: format!("{which}-schema-column-count"),
+                what: format!("{which} schema has {} columns, written {}", s.fields().len(), ncols),
+                detail: json!({"observed": format!("{s:?}")}),
+            });
+            return;
+        }
+        for (e, o) in exp_schema.fields().iter().zip(s.fields()) {
+            if e.name() != o.name() {
+                out.push(Finding {
+                    sig: format!("{which}-schema-column-name"),
+                    what: format!("column {} came back as {}", e.name(), o.name()),
+                    detail: json!({}),
+                });
+            }
+            match type_equiv(e.data_type(), o.data_type()) {
+                Ok(None) => {}
+                Ok(Some(t)) => type_norms.push(t),
+                Err(()) => out.push(Finding {
+                    sig: format!(
+                        "{which}-type-changed-{}-to-{}",
+                        type_tag(e.data_type()),
+                        type_tag(o.data_type())
+                    ),
+                    what: format!(
+                        "column {} written as {:?} reads as {:?}",
+                        e.name(),
+                        e.data_type(),
+                        o.data_type()
+                    ),
+                    detail: json!({}),
+                }),
+            }
+            if e.is_nullable() != o.is_nullable() {
+                out.push(Finding {
+                    sig: format!("{which}-nullability-changed"),
+                    what: format!(
+                        "column {} nullable={} reads as nullable={}",
+                        e.name(),
+                        e.is_nullable(),
+                        o.is_nullable()
+                    ),
+                    detail: json!({}),
+                });
+            }
+        }
+    };
+    check_schema(&obs.dataset_schema, "dataset", &mut out, type_norms);
+    if let Some(s) = &obs.scan_schema {
+        check_schema(s, "scan", &mut out, type_norms);
+    }
+    if !out.is_empty() && out.iter().any(|f| f.sig.contains("schema-column")) {
+        return out;
+    }
+    let idpos = obs.names.iter().position(|n| n == "id").unwrap_or(0);
+    // ---- full scan == model as a multiset keyed by id
+    let mut by_id: BTreeMap<i64, &Row> = BTreeMap::new();
+    for r in &obs.unordered {
+        let Some(id) = r.get(idpos).and_then(|c| c.as_i64()) else {
+            out.push(Finding {
+                sig: "scan-row-without-id".into(),
+                what: "a scanned row has a NULL / non-integer id".into(),
+                detail: json!({"row": render_row(r)}),
+            });
+            continue;
+        };
+        if by_id.insert(id, r).is_some() {
+            out.push(Finding {
+                sig: "scan-duplicate-row".into(),
+                what: format!("id {id} returned twice by a full scan"),
+                detail: json!({"id": id}),
+            });
+        }
+    }
+    let mut missing = vec![];
+    let mut cell_diffs = 0usize;
+    for (id, exp) in model {
+        match by_id.remove(id) {
+            None => missing.push(*id),
+            Some(o) => {
+                if let Some(col) = row_equiv(exp, o, ver, norms) {
+                    cell_diffs += 1;
+                    if cell_diffs == 1 {
+                        let ty = if col < ncols {
+                            kind_tag(exp_schema.field(col).data_type())
+                        } else {
+                            "?".into()
+                        };
+                        out.push(Finding {
+                            sig: format!("scan-cell-differs-{ty}"),
+                            what: format!(
+                                "id {id}: column {} ({}) differs from what was written",
+                                col,
+                                if col < ncols { type_tag(exp_schema.field(col).data_type()) } else { "?".into() }
+                            ),
+                            detail: json!({"id": id, "col": col, "written": render_row(exp), "read": render_row(o)}),
+                        });
+                    }
+                }
+            }
+        }
+    }
+    if !missing.is_empty() {
+        out.push(Finding {
+            sig: "scan-missing-rows".into(),
+            what: format!("{} written rows are not returned by a full scan", missing.len()),
+            detail: json!({"ids": missing.iter().take(20).collect::<Vec<_>>()}),
+        });
+    }
+    if !by_id.is_empty() {
+        out.push(Finding {
+            sig: "scan-extra-rows".into(),
+            what: format!("{} rows returned that were never written (or were overwritten)", by_id.len()),
+            detail: json!({"ids": by_id.keys().take(20).collect::<Vec<_>>()}),
+        });
+    }
+    // ---- ordered scan == insertion order
+    let ord_ids: Vec<Option<i64>> = obs
+        .ordered
+        .iter()
+        .map(|r| r.get(idpos).and_then(|c| c.as_i64()))
+        .collect();
+    let exp_ids: Vec<Option<i64>> = model.iter().map(|(i, _)| Some(*i)).collect();
+    if ord_ids != exp_ids {
+        let first = ord_ids
+            .iter()
+            .zip(&exp_ids)
+            .position(|(a, b)| a != b)
+            .unwrap_or(ord_ids.len().min(exp_ids.len()));
+        let same_set = {
+            let mut a = ord_ids.clone();
+            let mut b = exp_ids.clone();
+            a.sort();
+            b.sort();
+            a == b
+        };
+        out.push(Finding {
+            sig: if same_set {
+                "ordered-scan-not-in-insertion-order".into()
+            } else {
+                "ordered-scan-row-set-differs".into()
+            },
+            what: format!(
+                "scan_in_order(true): position {first} has id {:?}, insertion order says {:?} ({} vs {} rows)",
+                ord_ids.get(first),
+                exp_ids.get(first),
+                ord_ids.len(),
+                exp_ids.len()
+            ),
+            detail: json!({"first_diff": first}),
+        });
+    } else {
+        for ((id, exp), o) in model.iter().zip(&obs.ordered) {
+            if let Some(col) = row_equiv(exp, o, ver, norms) {
+                out.push(Finding {
+                    sig: "ordered-scan-cell-differs".into(),
+                    what: format!("ordered scan: id {id} column {col} differs from what was written"),
+                    detail: json!({"id": id, "col": col, "written": render_row(exp), "read": render_row(o)}),
+                });
+                break;
+            }
+        }
+    }
+    out
+}
+
+#[derive(Clone, Debug)]
+struct StepLog {
+    kind: &'static str,
+    rows: usize,
+    batches: Vec<usize>,
+    params: String,
+    outcome: String,
+    fragments: usize,
+}
+
+fn split_batches(rng: &mut Rng, n: usize) -> Vec<usize> {
+    // random batch boundaries, with empty batches sprinkled in
+    let mut sizes = vec![];
+    let mut left = n;
+    let style = rng.below(4);
+    while left > 0 {
+        let take = match style {
+            0 => left,
+            1 => rng.urange(1, left.min(7)),
+            2 => rng.urange(1, left),
+            _ => rng.urange(1, left.min(40)),
+        };
+        if rng.chance(1, 6) {
+            sizes.push(0);
+        }
+        sizes.push(take);
+        left -= take;
+    }
+    if sizes.is_empty() || rng.chance(1, 8) {
+        sizes.push(0);
+    }
+    sizes
+}
+
+fn tune_params(rng: &mut Rng, p: &mut WriteParams, n: usize) -> String {
+    let n1 = n.max(1);
+    let mrf = *rng.pick(&[1usize, 2, 3, 7, n1 / 2 + 1, n1, n1 + 1, 1 << 20, 1 << 20]);
+    let mrg = *rng.pick(&[1usize, 2, 5, 16, 64, 1024, 1024]);
+    let mbf = *rng.pick(&[1usize, 64, 1000, 4096, 1 << 20, 90 << 30, 90 << 30]);
+    p.max_rows_per_file = mrf;
+    p.max_rows_per_group = mrg;
+    p.max_bytes_per_file = mbf;
+    format!("rows/file={mrf} rows/group={mrg} bytes/file={mbf}")
+}
+
+enum Place {
+    Memory(Actor, String),
+    Dir(tempfile::TempDir),
+}
+
+impl Place {
+    fn uri(&self) -> String {
+        match self {
+            Place::Memory(_, u) => u.clone(),
+            Place::Dir(d) => d.path().join("t.lance").to_string_lossy().to_string(),
+        }
+    }
+    fn params(&self, mode: WriteMode) -> WriteParams {
+        match self {
+            Place::Memory(a, _) => a.write_params(mode),
+            Place::Dir(_) => WriteParams {
+                mode,
+                ..Default::default()
+            },
+        }
+    }
+    async fn open(&self) -> lance::Result<Dataset> {
+        match self {
+            Place::Memory(a, u) => a.fresh_session().open(u).await,
+            Place::Dir(_) => Dataset::open(&self.uri()).await,
+        }
+    }
+}
+
+async fn observe(ds: &Dataset, rng: &mut Rng) -> lance::Result<Obs> {
+    let count = ds.count_rows(None).await?;
+    let mut s = ds.scan();
+    if rng.chance(1, 2) {
+        s.batch_size(*rng.pick(&[1usize, 3, 16, 100, 8192]));
+    }
+    let un: Vec<RecordBatch> = s.try_into_stream().await?.try_collect().await?;
+    let mut s = ds.scan();
+    s.scan_in_order(true);
+    if rng.chance(1, 2) {
+        s.batch_size(*rng.pick(&[1usize, 2, 7, 50, 1024]));
+    }
+    if rng.chance(1, 3) {
+        s.fragment_readahead(*rng.pick(&[1usize, 2, 8]));
+    }
+    if rng.chance(1, 3) {
+        s.batch_readahead(*rng.pick(&[1usize, 4]));
+    }
+    let ord: Vec<RecordBatch> = s.try_into_stream().await?.try_collect().await?;
+    let scan_schema = un.first().map(|b| b.schema());
+    let dataset_schema: Schema = ds.schema().into();
+    let names = dataset_schema
+        .fields()
+        .iter()
+        .map(|f| f.name().clone())
+        .collect();
+    Ok(Obs {
+        count,
+        names,
+        unordered: un.iter().flat_map(batch_to_rows).collect(),
+        ordered: ord.iter().flat_map(batch_to_rows).collect(),
+        dataset_schema,
+        scan_schema,
+    })
+}
+
+/// strip field metadata so that schema comparison is about names / types / nullability only
+fn strip_meta(s: &Schema) -> Schema {
+    fn f(field: &arrow_schema::Field) -> arrow_schema::Field {
+        let dt = match field.data_type() {
+            DataType::List(c) => DataType::List(Arc::new(f(c))),
+            DataType::LargeList(c) => DataType::LargeList(Arc::new(f(c))),
+            DataType::FixedSizeList(c, k) => DataType::FixedSizeList(Arc::new(f(c)), *k),
+            DataType::Struct(cs) => DataType::Struct(cs.iter().map(|c| Arc::new(f(c))).collect()),
+            other => other.clone(),
+        };
+        arrow_schema::Field::new(field.name(), dt, field.is_nullable())
+    }
+    Schema::new(s.fields().iter().map(|x| f(x)).collect::<Vec<_>>())
+}
+
+struct Ctx<'a> {
+    report: &'a Report,
+    types: &'a Histo,
+    ops: &'a Histo,
+    norm_h: &'a Histo,
+    rejects: &'a Histo,
+    diag: &'a Histo,
+}
+
+/// corrupt an observation (selftest): returns a description
+fn corrupt(obs: &mut Obs, rng: &mut Rng) -> Option<&'static str> {
+    if obs.unordered.is_empty() {
+        obs.count += 1;
+        return Some("count+1");
+    }
+    match rng.below(5) {
+        0 => {
+            let i = rng.usize_below(obs.unordered.len());
+            obs.unordered.remove(i);
+            Some("drop-row-unordered")
+        }
+        1 => {
+            if obs.ordered.len() < 2 {
+                obs.count += 1;
+                return Some("count+1");
+            }
+            let i = rng.usize_below(obs.ordered.len() - 1);
+            obs.ordered.swap(i, i + 1);
+            Some("swap-ordered")
+        }
+        2 => {
+            let i = rng.usize_below(obs.unordered.len());
+            let r = obs.unordered[i].clone();
+            obs.unordered.push(r);
+            Some("dup-row")
+        }
+        3 => {
+            // flip a cell of a non-id column to something else
+            let i = rng.usize_below(obs.unordered.len());
+            if obs.unordered[i].len() < 2 {
+                obs.count += 1;
+                return Some("count+1");
+            }
+            let c = 1 + rng.usize_below(obs.unordered[i].len() - 1);
+            obs.unordered[i][c] = match &obs.unordered[i][c] {
+                Cell::Null => Cell::Int(0),
+                _ => Cell::Null,
+            };
+            // avoid the documented struct normalisation swallowing the flip
+            if let Cell::Null = obs.unordered[i][c] {
+                obs.unordered[i][c] = Cell::Other("corrupted".into());
+            }
+            Some("flip-cell")
+        }
+        _ => {
+            obs.count = obs.count.wrapping_sub(1);
+            Some("count-1")
+        }
+    }
+}
+
+async fn run_case(cx: &Ctx<'_>, seed: u64, idx: u64, selftest: bool) -> (u64, u64) {
+    // returns (selftest corruptions applied, detected)
+    let mut rng = Rng::for_case(seed, idx);
+    let ver = *rng.pick_weighted(&[(1, Ver::Legacy), (4, Ver::V2_0), (4, Ver::V2_1), (2, Ver::V2_2)]);
+    let ncols = rng.urange(1, 5);
+    let mut spec = if rng.chance(1, 4) {
+        XSpec::from_colty(&mut rng, ncols)
+    } else {
+        let depth = rng.below(3) as u32;
+        XSpec::random(&mut rng, ncols, depth)
+    };
+    let world = World::memory();
+    let place = if rng.chance(1, 6) {
+        match tempfile::Builder::new().prefix("e_rows-c11-").tempdir_in("/tmp") {
+            Ok(d) => Place::Dir(d),
+            Err(e) => {
+                cx.report.harness_error(&format!("tempdir: {e}"));
+                return (0, 0);
+            }
+        }
+    } else {
+        Place::Memory(Actor::new(world.new_actor(0)), format!("memory://c11-{seed}-{idx}"))
+    };
+    let uri = place.uri();
+    let stable = rng.chance(1, 3);
+    let v2_paths = rng.bool();
+    let mut ids = IdAlloc::new((idx % 1000) as usize + 1);
+    let mut model: Vec<(i64, Row)> = vec![];
+    let mut ds: Option<Dataset> = None;
+    let nsteps = rng.urange(2, 6);
+    let mut steps: Vec<StepLog> = vec![];
+    let mut accepted = 0usize;
+    let mut rows_compared = 0u64;
+    let mut cells_compared = 0u64;
+    let mut max_frags = 0usize;
+    let mut multi_batch = false;
+    let mut applied = 0u64;
+    let mut detected = 0u64;
+
+    for step in 0..nsteps {
+        let kind: &'static str = if ds.is_none() {
+            "create"
+        } else if rng.chance(1, 4) {
+            "overwrite"
+        } else {
+            "append"
+        };
+        let mut step_spec = spec.clone();
+        if kind == "overwrite" && rng.chance(1, 2) {
+            let ncols = rng.urange(1, 5);
+            let depth = rng.below(3) as u32;
+            step_spec = XSpec::random(&mut rng, ncols, depth);
+        }
+        let n = *rng.pick_weighted(&[(1, 0usize), (2, 1), (3, 5), (4, 33), (4, 100), (2, 257)]);
+        let n = if n > 5 { rng.urange(n / 2, n) } else { n };
+        let sizes = split_batches(&mut rng, n);
+        let schema = step_spec.schema();
+        let mut batches = vec![];
+        for sz in &sizes {
+            let idv = ids.take(*sz);
+            batches.push(step_spec.batch(&mut rng, &idv));
+        }
+        if rng.chance(1, 10) {
+            // a stream of zero batches is legal too
+            if n == 0 {
+                batches.clear();
+            }
+        }
+        let new_rows: Vec<(i64, Row)> = batches
+            .iter()
+            .flat_map(|b| {
+                let rows = batch_to_rows(b);
+                rows.into_iter().map(|r| (r[0].as_i64().unwrap(), r))
+            })
+            .collect();
+        let mode = match kind {
+            "create" => WriteMode::Create,
+            "append" => WriteMode::Append,
+            _ => WriteMode::Overwrite,
+        };
+        let mut params = place.params(mode);
+        let mut pdesc = tune_params(&mut rng, &mut params, n);
+        let mut step_ver = ver;
+        match kind {
+            "create" => {
+                params.data_storage_version = Some(ver.lance());
+                params.enable_stable_row_ids = stable;
+                params.enable_v2_manifest_paths = v2_paths;
+            }
+            "overwrite" => {
+                if rng.chance(1, 3) {
+                    step_ver = *rng.pick(&[Ver::V2_0, Ver::V2_1, Ver::V2_2]);
+                    params.data_storage_version = Some(step_ver.lance());
+                    pdesc.push_str(&format!(" version->{}", step_ver.name()));
+                }
+            }
+            _ => {
+                if rng.chance(1, 4) {
+                    params.data_storage_version = Some(ver.lance());
+                }
+            }
+        }
+        let reader = RecordBatchIterator::new(batches.clone().into_iter().map(Ok), schema.clone());
+        let via_handle = kind == "append" && rng.bool();
+        let res: Result<Dataset, Fail> = if via_handle {
+            let mut d = ds.clone().unwrap();
+            guard(async {
+                d.append(reader, Some(params)).await?;
+                Ok(d)
+            })
+            .await
+        } else {
+            guard(Dataset::write(reader, uri.as_str(), Some(params))).await
+        };
+        cx.ops.add(kind, 1);
+        let mut log = StepLog {
+            kind,
+            rows: n,
+            batches: sizes.clone(),
+            params: pdesc,
+            outcome: String::new(),
+            fragments: 0,
+        };
+        match res {
+            Err(f) => {
+                log.outcome = f.brief();
+                let key = format!(
+                    "{}:{}:{}",
+                    kind,
+                    f.class(),
+                    f.msg().chars().take(90).collect::<String>()
+                );
+                if f.is_clean_rejection() {
+                    cx.report.rejected();
+                    cx.rejects.add(&key, 1);
+                } else {
+                    // the writer did not accept the input but not with a documented rejection:
+                    // counted diagnostic (C11 quantifies over accepted inputs)
+                    cx.diag.add(&format!("write-failed:{key}"), 1);
+                }
+                // no observable effect: the table must still equal the model
+                if ds.is_some() {
+                    match guard(place.open()).await {
+                        Ok(d) => ds = Some(d),
+                        Err(e) => {
+                            cx.report.violation(
+                                "table-unreadable-after-rejected-write",
+                                "after a rejected/failed write the table cannot be opened",
+                                json!({"seed": seed, "case": idx, "step": step, "error": e.brief(), "write_error": f.brief(),
+                                       "schema": step_spec.describe()}),
+                            );
+                            steps.push(log);
+                            break;
+                        }
+                    }
+                } else {
+                    steps.push(log);
+                    // creation rejected: try again with the ColTy pool so the case is not wasted
+                    if step + 1 < nsteps {
+                        let ncols = rng.urange(1, 4);
+                        spec = XSpec::from_colty(&mut rng, ncols);
+                    }
+                    continue;
+                }
+            }
+            Ok(d) => {
+                accepted += 1;
+                log.outcome = format!("ok v{}", d.version().version);
+                log.fragments = d.count_fragments();
+                match kind {
+                    "overwrite" => {
+                        model = new_rows;
+                        spec = step_spec.clone();
+                    }
+                    _ => model.extend(new_rows),
+                }
+                if kind == "create" || kind == "overwrite" {
+                    for c in &spec.cols {
+                        cx.types.add(&format!("{}:{}", step_ver.name(), kind_tag(&c.ty)), 1);
+                    }
+                }
+                ds = Some(if rng.bool() {
+                    d
+                } else {
+                    match guard(place.open()).await {
+                        Ok(d2) => d2,
+                        Err(e) => {
+                            cx.report.violation(
+                                "table-unreadable-after-accepted-write",
+                                "an accepted write produced a table that cannot be opened",
+                                json!({"seed": seed, "case": idx, "step": step, "error": e.brief(), "schema": spec.describe()}),
+                            );
+                            steps.push(log);
+                            break;
+                        }
+                    }
+                });
+            }
+        }
+        let d = ds.as_ref().unwrap();
+        // effective storage version of the table (overwrite may or may not switch it)
+        let eff_ver = match d.manifest().data_storage_format.lance_file_version() {
+            Ok(LanceFileVersion::Legacy) => Ver::Legacy,
+            Ok(LanceFileVersion::V2_0) => Ver::V2_0,
+            Ok(LanceFileVersion::V2_1) => Ver::V2_1,
+            Ok(LanceFileVersion::V2_2) => Ver::V2_2,
+            _ => ver,
+        };
+        max_frags = max_frags.max(d.count_fragments());
+        multi_batch |= sizes.iter().filter(|s| **s > 0).count() >= 2;
+        steps.push(log);
+        // ---- observe and decide
+        let exp_schema = strip_meta(&spec.schema());
+        match guard(observe(d, &mut rng)).await {
+            Err(e) => {
+                let ty = spec
+                    .cols
+                    .iter()
+                    .map(|c| kind_tag(&c.ty))
+                    .collect::<Vec<_>>()
+                    .join("+");
+                cx.report.violation(
+                    &format!("read-failed-after-accepted-write-{}-{}", e.class(), eff_ver.name()),
+                    "an accepted write cannot be read back (scan / count_rows error or panic)",
+                    json!({"seed": seed, "case": idx, "step": step, "error": e.brief(), "schema": spec.describe(),
+                           "types": ty, "version": eff_ver.name(), "uri": uri,
+                           "steps": steps.iter().map(|s| format!("{s:?}")).collect::<Vec<_>>() }),
+                );
+                break;
+            }
+            Ok(mut obs) => {
+                obs.dataset_schema = strip_meta(&obs.dataset_schema);
+                obs.scan_schema = obs.scan_schema.map(|s| Arc::new(strip_meta(&s)));
+                if selftest {
+                    let mut crng = Rng::for_case(seed ^ 0xC0FFEE, idx * 16 + step as u64);
+                    if let Some(_what) = corrupt(&mut obs, &mut crng) {
+                        applied += 1;
+                        let mut n1 = vec![];
+                        let mut n2 = vec![];
+                        if !oracle(&model, &exp_schema, &obs, eff_ver, &mut n1, &mut n2).is_empty() {
+                            detected += 1;
+                        }
+                    }
+                    continue;
+                }
+                let mut norms = vec![];
+                let mut tnorms = vec![];
+                let findings = oracle(&model, &exp_schema, &obs, eff_ver, &mut norms, &mut tnorms);
+                rows_compared += (obs.unordered.len() + obs.ordered.len()) as u64;
+                cells_compared += ((obs.unordered.len() + obs.ordered.len()) * (spec.cols.len() + 1)) as u64;
+                norms.sort();
+                norms.dedup();
+                for n in norms {
+                    cx.norm_h.add(n, 1);
+                }
+                for n in tnorms {
+                    cx.norm_h.add(&n, 1);
+                }
+                if !findings.is_empty() {
+                    for f in findings {
+                        cx.report.violation(
+                            &format!("{}-{}", f.sig, eff_ver.name()),
+                            &f.what,
+                            json!({"seed": seed, "case": idx, "step": step, "schema": spec.describe(),
+                                   "version": eff_ver.name(), "stable_row_ids": stable, "detail": f.detail,
+                                   "steps": steps.iter().map(|s| format!("{s:?}")).collect::<Vec<_>>() }),
+                        );
+                    }
+                    break;
+                }
+            }
+        }
+    }
+    if selftest {
+        return (applied, detected);
+    }
+    cx.report.count("steps_accepted", accepted as u64);
+    cx.report.count("rows_compared", rows_compared);
+    cx.report.count("cells_compared", cells_compared);
+    // non-trivial: at least one accepted write, >=1 row compared, and the table was physically
+    // split (>=2 fragments) or written from >=2 non-empty batches
+    let nontrivial = accepted >= 1 && rows_compared > 0 && (max_frags >= 2 || multi_batch);
+    let sig = format!(
+        "{}|{}|{}|{}",
+        ver.name(),
+        spec.describe(),
+        steps.iter().map(|s| s.kind).collect::<Vec<_>>().join(","),
+        max_frags
+    );
+    cx.report.case(if nontrivial { Some(fnv_str(&sig)) } else { None });
+    if nontrivial && cx.report.want_sample() {
+        cx.report.sample(json!({
+            "case": idx, "version": ver.name(), "schema": spec.describe(), "stable_row_ids": stable,
+            "steps": steps.iter().map(|s| format!("{} rows={} batches={:?} [{}] -> {} frags={}", s.kind, s.rows, s.batches, s.params, s.outcome, s.fragments)).collect::<Vec<_>>(),
+            "rows_compared": rows_compared,
+        }));
+    }
+    (0, 0)
+}
+
+pub fn run(args: &Args) -> i32 {
+    install_quiet_panic_hook();
+    let report = Report::new(
+        args,
+        "exploration",
+        "One case = one seeded history create/(append|overwrite)* on a fresh table with a random Arrow schema \
+         (recursive type generator: all primitive widths, f16, temporals, decimals 128/256, (large) utf8/binary, views, \
+         fixed size binary, null, list/large list/FSL/struct/dictionary nested to depth 2), random batch splits incl. empty \
+         batches, random max_rows_per_file / max_rows_per_group / max_bytes_per_file and storage version legacy/2.0/2.1/2.2; \
+         after every accepted write count_rows, the full scan (multiset keyed by id, cell equality) and the ordered scan \
+         (sequence) are compared with the model. Non-trivial = >=1 accepted write with rows compared and a table of >=2 \
+         fragments or a write of >=2 non-empty batches; distinct by (version, schema, op kinds, fragment count).",
+        (60, 900),
+    )
+    .with_min_nontrivial(args.tier.pick(50, 500));
+    let types = Histo::default();
+    let ops = Histo::default();
+    let norm_h = Histo::default();
+    let rejects = Histo::default();
+    let diag = Histo::default();
+    let cx = Ctx {
+        report: &report,
+        types: &types,
+        ops: &ops,
+        norm_h: &norm_h,
+        rejects: &rejects,
+        diag: &diag,
+    };
+    let selftest = selftest_requested(args);
+    let max_cases = if selftest { 200 } else { args.tier.pick(4_000, 120_000) };
+    let st = std::sync::Mutex::new((0u64, 0u64));
+    let single: Option<u64> = args.extra.get("case").and_then(|s| s.parse().ok());
+    if let Some(i) = single {
+        let rt = tokio::runtime::Builder::new_current_thread().enable_all().build().unwrap();
+        rt.block_on(run_case(&cx, args.seed, i, false));
+    } else {
+        run_parallel(&report, max_cases, 16, |i, rt| {
+            let r = rt.block_on(run_case(&cx, args.seed, i, selftest));
+            let mut g = st.lock().unwrap();
+            g.0 += r.0;
+            g.1 += r.1;
+        });
+    }
+    if selftest {
+        let g = st.lock().unwrap();
+        println!("SELFTEST C11 corruptions_applied={} detected={}", g.0, g.1);
+        return if g.0 > 0 && g.0 == g.1 { 0 } else { 2 };
+    }
+    report.set("schemas_by_version_and_kind", types.json());
+    report.set("ops_by_kind", ops.json());
+    report.set("normalisations_seen", norm_h.json());
+    report.set("rejections", rejects.json());
+    report.set("writer_failures_not_counted_as_violations", diag.json());
+    report.assume("object_store InMemory / LocalFileSystem implement put/get faithfully");
+    report.finish()
 }
